@@ -9,6 +9,8 @@ VERIF = os.path.dirname(os.path.dirname(os.path.abspath(__file__)))
 REPO = os.environ.get("VERIF_REPO", "/repo")
 ENV = dict(os.environ, GOFLAGS="-mod=mod", GOPROXY="off", GOSUMDB="off", GOTOOLCHAIN="local", GOWORK="off")
 PROPS = ["C%02d" % i for i in range(1, 21)]
+if os.environ.get("ONLY_PROP"):
+    PROPS = [os.environ["ONLY_PROP"]]
 
 
 def run(patch):
@@ -60,7 +62,7 @@ def main():
     for name, r in res.items():
         own = name.split("-")[0] if not name.startswith("regression") else ""
         if name.startswith("regression"):
-            own = {"F1": "C16", "F2": "C04", "F3": "C03", "F4": "C05", "F5": "C09", "F6": "C20", "F7": "C07", "F8": "C04", "F9": "C03", "F10": "C10"}.get(name.split("-")[1], "")
+            own = {"F1": "C16", "F2": "C04", "F3": "C03", "F4": "C05", "F5": "C09", "F6": "C20", "F7": "C07", "F8": "C04", "F9": "C03", "F10": "C10", "F11": "C08"}.get(name.split("-")[1], "")
         ownf = "yes" if r["fired"].get(own) else "NO"
         if ownf == "NO":
             miss.append(name)
